@@ -4,7 +4,6 @@ import (
 	"bytes"
 	"fmt"
 	"os"
-	"os/exec"
 	"path/filepath"
 	"sort"
 	"strings"
@@ -482,7 +481,11 @@ func c17Run(c *fw.Ctx, i int) {
 		defer os.RemoveAll(dir)
 		os.WriteFile(filepath.Join(dir, "in.ged"), []byte(text), 0o644)
 		vis := []string{"hide", "placeholder"}[i%2]
-		out, err := exec.Command(bin, "publish", "-gedcom", filepath.Join(dir, "in.ged"), "-output-dir", filepath.Join(dir, "out"), "-living", vis, "-jobs", "2").CombinedOutput()
+		outS, err, okRun := runCLI(c, "cli-publish", payload, nil, 120, bin, "publish", "-gedcom", filepath.Join(dir, "in.ged"), "-output-dir", filepath.Join(dir, "out"), "-living", vis, "-jobs", "2")
+		if !okRun {
+			return
+		}
+		out := []byte(outS)
 		c.Count("cli-runs", 1)
 		if err != nil {
 			c.Violation("cli-publish-failed", fmt.Sprintf("gedcom publish -living %s failed: %v\n%s", vis, err, clip(string(out), 600)), payload)
